@@ -126,23 +126,29 @@ def PStore.state (p : PStore) : Except Err Cache :=
 def replaceCached (existing : List Entry) (first : Nat) (incoming : List Entry) : List Entry :=
   existing.takeWhile (fun e => e.index < first) ++ incoming.map stripEntry
 
+/-- `last := snapshot.Index; if len(entries) > 0 && entries[len-1].Index > last { last = that }` -/
+def cachedLast (snapIndex : Nat) (entries : List Entry) : Nat :=
+  match entries.getLast? with
+  | some e => if e.index > snapIndex then e.index else snapIndex
+  | none => snapIndex
+
+/-- the two FirstIndex repairs at the end of `updateScopeWriteMeta` -/
+def settleFirst (m : Meta) (snapIndex : Nat) (entries : List Entry) : Meta :=
+  let m := if m.first = 0 then
+      (match entries with
+       | e :: _ => { m with first := e.index }
+       | [] => if snapIndex ≠ 0 ∧ m.last < maxU64 then { m with first := m.last + 1 } else { m with first := 1 })
+    else m
+  if m.last < m.first ∧ m.last < maxU64 then { m with first := m.last + 1 } else m
+
 /-- `updateScopeWriteMeta` -/
 def updateScopeWriteMeta (c : Cache) : Option Cache :=
   match deriveConf c.snapIndex c.snapConf c.entries c.hard.commit with
   | none => none
   | some conf =>
-    let m := { c.logMeta with snapIndex := c.snapIndex, snapTerm := c.snapTerm, conf := conf }
-    let last := match c.entries.getLast? with
-      | some e => if e.index > c.snapIndex then e.index else c.snapIndex
-      | none => c.snapIndex
-    let m := { m with last := last }
-    let m := if m.first = 0 then
-        (match c.entries with
-         | e :: _ => { m with first := e.index }
-         | [] => if c.snapIndex ≠ 0 ∧ last < maxU64 then { m with first := last + 1 } else { m with first := 1 })
-      else m
-    let m := if m.last < m.first ∧ m.last < maxU64 then { m with first := m.last + 1 } else m
-    some { c with logMeta := m }
+    let m := { c.logMeta with snapIndex := c.snapIndex, snapTerm := c.snapTerm, conf := conf,
+                              last := cachedLast c.snapIndex c.entries }
+    some { c with logMeta := settleFirst m c.snapIndex c.entries }
 
 structure SaveReq where
   hs : Option Hard
@@ -154,17 +160,23 @@ structure SaveReq where
 def manifestEquivalent (a b : Manifest) : Bool :=
   a.index == b.index && a.term == b.term && a.data == b.data && a.conf == b.conf
 
-/-- `saveOp.apply`, snapshot part: manifest key, DeleteRange of the compacted prefix,
-    FirstIndex, commit bump, cached tail trim -/
-def applySnap (d : Durable) (c : Cache) (hs : Hard) (s : Snap) (allowReplace : Bool) :
-    Except Err (Durable × Cache × Hard) :=
-  if s.index < c.snapIndex then .error .outOfDate
+/-- the two refusals at the head of `saveOp.apply`'s snapshot branch -/
+def snapCheck (c : Cache) (s : Snap) (allowReplace : Bool) : Option Err :=
+  if s.index < c.snapIndex then some .outOfDate
   else if s.index = c.snapIndex ∧
           (match c.manifest with
            | some man => !manifestEquivalent man s
            | none => false) = true ∧
-          (allowReplace = false ∨ s.index ≠ c.logMeta.applied) then .error .other
-  else
+          (allowReplace = false ∨ s.index ≠ c.logMeta.applied) then some .other
+  else none
+
+/-- `saveOp.apply`, snapshot part: manifest key, DeleteRange of the compacted prefix,
+    FirstIndex, commit bump, cached tail trim -/
+def applySnap (d : Durable) (c : Cache) (hs : Hard) (s : Snap) (allowReplace : Bool) :
+    Except Err (Durable × Cache × Hard) :=
+  match snapCheck c s allowReplace with
+  | some e => .error e
+  | none =>
     let dEnts := if s.index < maxU64 then d.entries.filter (fun e => ¬ e.index < s.index + 1) else []
     let first := if s.index < maxU64 then s.index + 1 else maxU64
     let hs := if hs.commit < s.index then { hs with commit := s.index } else hs
@@ -175,6 +187,10 @@ def applySnap (d : Durable) (c : Cache) (hs : Hard) (s : Snap) (allowReplace : B
                       logMeta := { c.logMeta with first := first } }
     .ok (d, c, hs)
 
+/-- `if meta.LastIndex < meta.FirstIndex || first < meta.FirstIndex { meta.FirstIndex = first }` -/
+def fixFirst (m : Meta) (first : Nat) : Meta :=
+  if m.last < m.first ∨ first < m.first then { m with first := first } else m
+
 /-- `saveOp.apply`, entries part: FirstIndex repair, suffix DeleteRange only when
     something can be hidden, one Set per entry, cached tail replacement -/
 def applyEnts (d : Durable) (c : Cache) (ents : List Entry) : Durable × Cache :=
@@ -182,8 +198,7 @@ def applyEnts (d : Durable) (c : Cache) (ents : List Entry) : Durable × Cache :
   | [] => (d, c)
   | e :: _ =>
     let first := e.index
-    let m := c.logMeta
-    let m := if m.last < m.first ∨ first < m.first then { m with first := first } else m
+    let m := fixFirst c.logMeta first
     let dEnts := if first ≤ m.last then d.entries.filter (fun (x : Entry) => x.index < first) else d.entries
     let dEnts := ents.foldl (fun acc x => upsert x acc) dEnts
     ({ d with entries := dEnts },
@@ -317,6 +332,7 @@ inductive Op where
   | mark (i : Nat)
   | cmark (i : Nat)
   | reopen
+  | dump                      -- the full read API (InitialState persists a missing meta)
 deriving Repr
 
 /-- the reference store; `none` = the reference refuses (only `repl`) -/
@@ -326,6 +342,7 @@ def stepM? (m : RaftStore) : Op → Option RaftStore
   | .mark i => some (m.markApplied i)
   | .cmark i => some (m.markConfApplied i)
   | .reopen => some m
+  | .dump => some m
 
 def stepM (m : RaftStore) (op : Op) : RaftStore := (stepM? m op).getD m
 
@@ -335,6 +352,7 @@ def stepP? (p : PStore) : Op → Except Err PStore
   | .mark i => p.markApplied i
   | .cmark i => p.markConfApplied i
   | .reopen => .ok p.reopen
+  | .dump => .ok p.reads.1
 
 /-- a failed mutation leaves the store as it was (one atomic Pebble batch) -/
 def stepP (p : PStore) (op : Op) : PStore :=
@@ -349,6 +367,7 @@ def validOp (m : RaftStore) : Op → Bool
   | .mark _ => true
   | .cmark _ => true
   | .reopen => true
+  | .dump => true
 
 def validRun : RaftStore → List Op → Bool
   | _, [] => true
